@@ -802,7 +802,7 @@ def gen_targeted_history(rng, n, fn):
     return dict(history=hist, pool=pool)
 
 
-def gen_history(rng, max_len, focus=None, allow_viewshed=True):
+def gen_history(rng, max_len, focus=None, allow_viewshed=True, must=None):
     n = rng.randrange(max(4, max_len // 2), max_len + 1)
     pool, hist = {}, []
     fams = dict(FAMILIES)
@@ -810,6 +810,8 @@ def gen_history(rng, max_len, focus=None, allow_viewshed=True):
         fams.pop("viewshed")
     # a history concentrates on two or three families (that is where parameter-dependent staleness shows)
     chosen = rng.sample(sorted(fams), k=min(len(fams), rng.choice([2, 3, 3, 4])))
+    if must:
+        chosen = list(dict.fromkeys([m for m in must if m in fams] + chosen))[:max(4, len(must))]
     if focus:
         chosen = list(dict.fromkeys([f for f in focus if f in FAMILIES] + chosen))[:max(3, len(focus))]
     table = {k: (fams.get(k, FAMILIES[k])[0], FAMILIES[k][1] * (3.0 if focus and k in focus else 1.0)) for k in chosen}
@@ -1159,7 +1161,7 @@ def run(r, budget=None, focus=None, histories=None):
     lab = Lab(r)
     try:
         tier = r.tier
-        n_hist, max_len, configs = {"quick": (2, 12, THREAD_CONFIGS), "thorough": (6, 60, THREAD_CONFIGS)}[tier]
+        n_hist, max_len, configs = {"quick": (3, 12, THREAD_CONFIGS), "thorough": (8, 60, THREAD_CONFIGS)}[tier]
         if budget:
             n_hist, max_len = budget
 
@@ -1190,7 +1192,17 @@ def run(r, budget=None, focus=None, histories=None):
                     r.fail(f"{c['kind']}:{c['fn']}", "corpus case still fails", c)
         if histories is None:
             generator_oracle(r, {"quick": 6, "thorough": 30}[tier])
-            hs = [gen_history(r.rng, max_len, focus=focus, allow_viewshed=(tier == "thorough" or k == 0)) for k in range(n_hist)]
+            # every run has the seeded generators in its first history; the other families rotate with the seed so
+            # that a thorough run (and any few quick seeds) covers all of them
+            order = sorted(f for f in FAMILIES if f != "generators")
+            off = (r.seed * 2 * n_hist) % len(order)
+            order = order[off:] + order[:off]
+            per = -(-len(order) // n_hist) if tier == "thorough" else 2
+            hs = []
+            for k in range(n_hist):
+                must = (["generators"] if k == 0 else []) + [order[(k * per + j) % len(order)] for j in range(per)]
+                must = [m for m in must if m != "viewshed" or tier == "thorough" or k == 0]
+                hs.append(gen_history(r.rng, max_len, focus=focus, allow_viewshed=(tier == "thorough" or k == 0), must=must))
         else:
             hs = histories
         futs = [lab.orch.submit(check_history, lab, h, f"h{k}-{lab.n}", configs_for(k)) for k, h in enumerate(hs)]
